@@ -946,7 +946,14 @@ def model_requests(case, impl):
         if case["op"] == "resolve":
             return [line(ID, "resolve", case["name"], case["parent"])]
         return [line(ID, "repr", bytes.fromhex(case["bytes"]))]
+    if _loopok_case(case):
+        return [compile_line(case), line(ID, "loopok", case["ws"], case["ae"], case["entry"], case["files"])]
     return [compile_line(case)]
+
+
+def _loopok_case(case):
+    """well-formed templates (one load): CPython's verdict on the generated module is compared with Spec.loopOK"""
+    return case["kind"] == "tpl" and case.get("valid") is True and not case.get("loads")
 
 
 def norm_reply(reply):
@@ -982,6 +989,8 @@ def model_result(case, replies):
     r = norm_reply(replies[0])
     if case["kind"] == "prim":
         return r[0]
+    if _loopok_case(case):
+        return [_norm_outcome(r), norm_reply(replies[1])[0]]
     return _norm_outcome(r)
 
 
@@ -990,6 +999,8 @@ def impl_view(case, impl):
         return impl["out"]
     if case.get("loads"):
         return [p["compile"] for p in impl.get("pre", [])] + [impl["compile"]]
+    if _loopok_case(case):
+        return [impl["compile"], "N" if impl["compile"][0] != "code" else ("F" if "syntax_error" in impl else "T")]
     return impl["compile"]
 
 
